@@ -37,6 +37,9 @@ type Cfg struct {
 	// Node to the unmarshaler; only with string keys, string values and the v1marshaler format,
 	// whose default-JSON decoding gives back the same Go types)
 	Reg bool `json:",omitempty"`
+	// WideCmp: RemoteConfig.KeyCompare is the default order with results of magnitude 5 (a
+	// comparison function may return any negative / zero / positive int, as `a - b` does)
+	WideCmp bool `json:",omitempty"`
 }
 
 // RegMode: the registered-types decoding is used only where default JSON gives back the Go
@@ -71,6 +74,8 @@ func (c Cfg) Key(n uint64) interface{} {
 		return int64(n) - i64bias
 	case "str":
 		return strKey(n)
+	case "strx":
+		return strKey(n) + escFrag(n)
 	case "bytes":
 		return []byte{byte(n >> 16), byte(n >> 8), byte(n)}
 	case "int":
@@ -136,8 +141,11 @@ func (c Cfg) KeyNat(k interface{}) uint64 {
 		return uint64(v + i64bias)
 	case string:
 		var n uint64
-		for i := 0; i < len(v); i++ {
+		for i := 0; i < len(v) && i < 5; i++ {
 			n = n*26 + uint64(v[i]-'a')
+		}
+		if c.KK == "strx" && v != strKey(n)+escFrag(n) {
+			panic(fmt.Sprintf("strx key corrupted: %q", v))
 		}
 		return n
 	case []byte:
@@ -164,7 +172,7 @@ func (c Cfg) KeysLike() interface{} {
 		return uint64(0)
 	case "i64":
 		return int64(0)
-	case "str":
+	case "str", "strx":
 		return ""
 	case "bytes":
 		return []byte{}
@@ -206,6 +214,8 @@ func (c Cfg) Val(n uint64) interface{} {
 		return IV{X: []interface{}{strconv.FormatUint(n, 10)}}
 	case "long":
 		return LV(longText(n))
+	case "esc":
+		return EV(escText(n))
 	}
 	panic("bad val kind")
 }
@@ -222,6 +232,19 @@ func longText(n uint64) string {
 	total := longTotals[n%6] - 2
 	return head + strings.Repeat(string(rune('a'+n%26)), total-len(head))
 }
+
+// escFrags: text fragments around encoding/json's string escaping (HTML-unsafe characters, quote,
+// backslash, the short escapes, other control bytes, DEL, multi-byte runes, the two line
+// separators that json escapes, a slash).  Keys of kind strx and values of kind esc end in one.
+var escFrags = []string{"<", ">", "&", "\"", "\\", "\n", "\t", "\r", "\x01", "\x1f", "\x7f", "\u00e9", "\u2028", "\u2029",
+	"/", "a<b&c>d", "\u65e5\u672c", "\U0001F600"}
+
+func escFrag(n uint64) string { return escFrags[n%uint64(len(escFrags))] }
+
+// EV is a string value "<digits>-<fragment>".
+type EV string
+
+func escText(n uint64) string { return strconv.FormatUint(n, 10) + "-" + escFrag(n) }
 
 // IV is a value type with an interface-typed field.
 type IV struct{ X interface{} }
@@ -259,6 +282,15 @@ func (c Cfg) ValNat(v interface{}) uint64 {
 			panic("long value corrupted: " + string(x)[:20])
 		}
 		return n
+	case EV:
+		n, err := strconv.ParseUint(string(x)[:strings.IndexByte(string(x), '-')], 10, 64)
+		if err != nil {
+			panic(err)
+		}
+		if string(x) != escText(n) {
+			panic(fmt.Sprintf("esc value corrupted: %q", string(x)))
+		}
+		return n
 	case IV:
 		n, err := strconv.ParseUint(x.X.([]interface{})[0].(string), 10, 64)
 		if err != nil {
@@ -283,6 +315,8 @@ func (c Cfg) ValuesLike() interface{} {
 		return IV{}
 	case "long":
 		return LV("")
+	case "esc":
+		return EV("")
 	}
 	panic("bad val kind")
 }
